@@ -716,6 +716,7 @@ impl<'a> Collector<'a> {
     &mut self,
     ta: &annotation::TypeArguments,
     bounds: &[Option<PStr>],
+    on_call: bool,
   ) {
     let k = ta.arguments.len();
     if bounds.len() != k || k == 0 {
@@ -729,7 +730,7 @@ impl<'a> Collector<'a> {
     // add one: k+1 type arguments for k type parameters
     self.push(
       "targ-count",
-      "add",
+      if on_call { "add-call" } else { "add-annot" },
       e - 1,
       e - 1,
       ", int".into(),
@@ -748,7 +749,7 @@ impl<'a> Collector<'a> {
         if pe < le {
           self.push(
             "targ-count",
-            "drop",
+            if on_call { "drop-call" } else { "drop-annot" },
             pe,
             le,
             String::new(),
@@ -771,7 +772,7 @@ impl<'a> Collector<'a> {
         if &self.text.s[s0..e0] != "Str" {
           self.push(
             "bound-violation",
-            "targ",
+            if on_call { "targ-call" } else { "targ-annot" },
             s0,
             e0,
             "Str".into(),
@@ -803,7 +804,7 @@ impl<'a> Collector<'a> {
           .map(|p| p.bound.as_ref().map(|b| b.id.name))
           .collect();
         match &id.type_arguments {
-          Some(ta) => self.targ_sites(ta, &bounds),
+          Some(ta) => self.targ_sites(ta, &bounds, false),
           None => {
             // a type argument for a class that declares no type parameter
             if bounds.is_empty() {
@@ -898,7 +899,7 @@ impl<'a> Collector<'a> {
         self.uses.entry((*m1, *c, name.name, *is_static)).or_default().insert(self.mref);
       }
       match ta {
-        Some(ta) => self.targ_sites(ta, bounds),
+        Some(ta) => self.targ_sites(ta, bounds, true),
         None => {
           if let (Some((i, _)), Some(e)) = (self.range(loc, "notargs"), self.text.off(name.loc.end)) {
             if self.ident_ok(&name.loc, name.name) {
